@@ -532,6 +532,144 @@ func c19Chunks(tier string) []SeqChunk {
 			}})
 		}
 	}
+	// bytes that keep coming after the bar has completed while its goroutine still serves (auto refresh with a distant
+	// tick, a second bar still running): the counter stays capped at the total and the bar stays completed
+	chunks = append(chunks, SeqChunk{Name: "c19-transfer-continues-after-completion", Gen: func(env *SeqEnv) {
+		for _, side := range []string{"reader", "writer"} {
+			for _, ewma := range []int{0, 1} {
+				for _, size := range []int{1, 2, 3, 5} {
+					side, ewma, size := side, ewma, size
+					id := fmt.Sprintf("after-completion side=%s ewma=%d chunk=%d", side, ewma, size)
+					env.Case(id, func() (string, bool, string, string) {
+						p := mpb.New(mpb.WithOutput(io.Discard), mpb.WithAutoRefresh(), mpb.WithRefreshRate(time.Hour))
+						var opts []mpb.BarOption
+						var samples []ioCall
+						if ewma > 0 {
+							wc := decor.WC{}
+							wc.Init()
+							opts = append(opts, mpb.AppendDecorators(ewmaRec{wc, &samples}))
+						}
+						bar := p.AddBar(4, opts...)
+						other := p.AddBar(100)
+						data := []byte("abcdefghij")
+						var curs []int64
+						sum := 0
+						bad := ""
+						if side == "reader" {
+							rc := bar.ProxyReader(bytes.NewReader(data))
+							buf := make([]byte, size)
+							for {
+								n, err := rc.Read(buf)
+								sum += n
+								c := bar.Current()
+								curs = append(curs, c)
+								want := int64(sum)
+								if want > 4 {
+									want = 4
+								}
+								if c != want && bad == "" {
+									bad = fmt.Sprintf("bar at %d after %d bytes (total 4)", c, sum)
+								}
+								if err != nil {
+									break
+								}
+							}
+							rc.Close()
+						} else {
+							wc := bar.ProxyWriter(io.Discard)
+							for off := 0; off < len(data); off += size {
+								end := off + size
+								if end > len(data) {
+									end = len(data)
+								}
+								n, _ := wc.Write(data[off:end])
+								sum += n
+								c := bar.Current()
+								curs = append(curs, c)
+								want := int64(sum)
+								if want > 4 {
+									want = 4
+								}
+								if c != want && bad == "" {
+									bad = fmt.Sprintf("bar at %d after %d bytes (total 4)", c, sum)
+								}
+							}
+							wc.Close()
+						}
+						comp := bar.Completed()
+						other.Abort(true)
+						p.Shutdown()
+						out := fmt.Sprintf("curs=%v comp=%v", curs, comp)
+						if bad != "" {
+							return out, true, "bar-advance", bad
+						}
+						if !comp {
+							return out, true, "completed-lost", fmt.Sprintf("bar of total 4 not completed after %d bytes", sum)
+						}
+						return out, true, "", ""
+					})
+				}
+			}
+		}
+	}})
+	// the fast paths called directly (io.Copy hides what they return): whatever the wrapped WriteTo / ReadFrom returns,
+	// count and error value, comes back unchanged, and the bar advances by that count
+	chunks = append(chunks, SeqChunk{Name: "c19-fast-path-direct", Gen: func(env *SeqEnv) {
+		errs := []error{nil, io.EOF, io.ErrUnexpectedEOF, io.ErrShortWrite, io.ErrClosedPipe, errInjected}
+		for _, side := range []string{"reader", "writer"} {
+			for ei, e := range errs {
+				for _, part := range []int{0, 3, 6} {
+					for _, ewma := range []int{0, 1, 2} {
+						for _, closer := range []bool{false, true} {
+							side, ei, e, part, ewma, closer := side, ei, e, part, ewma, closer
+							id := fmt.Sprintf("fast-path side=%s err#%d delivered=%d ewma=%d closer=%v", side, ei, part, ewma, closer)
+							env.Case(id, func() (string, bool, string, string) {
+								var samples []ioCall
+								p, bar := c19Bar(c19Cfg{total: 20, ewma: ewma}, &samples)
+								var n int64
+								var err error
+								data := []byte("abcdef")
+								if side == "reader" {
+									var under io.Reader = fixedWT{data[:part], e}
+									if closer {
+										under = fixedWTCloser{fixedWT{data[:part], e}}
+									}
+									rc := bar.ProxyReader(under)
+									wt, ok := rc.(io.WriterTo)
+									if !ok {
+										return "", true, "fast-path", "the proxy of a reader with WriteTo offers no WriteTo"
+									}
+									n, err = wt.WriteTo(io.Discard)
+								} else {
+									var under io.Writer = fixedRF{part, e}
+									if closer {
+										under = fixedRFCloser{fixedRF{part, e}}
+									}
+									wc := bar.ProxyWriter(under)
+									rf, ok := wc.(io.ReaderFrom)
+									if !ok {
+										return "", true, "fast-path", "the proxy of a writer with ReadFrom offers no ReadFrom"
+									}
+									n, err = rf.ReadFrom(bytes.NewReader(data))
+								}
+								cur := bar.Current()
+								bar.Abort(true)
+								p.Shutdown()
+								out := fmt.Sprintf("n=%d err=%s cur=%d", n, errStr(err), cur)
+								if n != int64(part) || err != e {
+									return out, true, "fast-path-result", fmt.Sprintf("the wrapped %s fast path returned (%d, %v), the proxy returned (%d, %v)", side, part, e, n, err)
+								}
+								if cur != int64(part) {
+									return out, true, "bar-advance", fmt.Sprintf("bar at %d after %d bytes through the fast path", cur, part)
+								}
+								return out, true, "", ""
+							})
+						}
+					}
+				}
+			}
+		}
+	}})
 	return chunks
 }
 
@@ -544,3 +682,37 @@ func init() {
 		Items: func(tier string) []Item { return seqItems("C19", tier) },
 	})
 }
+
+// fixedWT / fixedRF: values whose fast path delivers a fixed count and returns a fixed error value.
+type fixedWT struct {
+	data []byte
+	err  error
+}
+
+func (f fixedWT) Read(p []byte) (int, error) { return 0, io.EOF }
+func (f fixedWT) WriteTo(w io.Writer) (int64, error) {
+	mcrt.Advance(3 * time.Millisecond)
+	n, _ := w.Write(f.data)
+	return int64(n), f.err
+}
+
+type fixedWTCloser struct{ fixedWT }
+
+func (fixedWTCloser) Close() error { return nil }
+
+type fixedRF struct {
+	n   int
+	err error
+}
+
+func (f fixedRF) Write(p []byte) (int, error) { return len(p), nil }
+func (f fixedRF) ReadFrom(r io.Reader) (int64, error) {
+	mcrt.Advance(3 * time.Millisecond)
+	buf := make([]byte, f.n)
+	n, _ := io.ReadFull(r, buf)
+	return int64(n), f.err
+}
+
+type fixedRFCloser struct{ fixedRF }
+
+func (fixedRFCloser) Close() error { return nil }
